@@ -6,6 +6,7 @@ parse_stream, parse_async_stream, wsgi.Request.form with short reads, asgi.Reque
 messages); (2) event-grammar automaton on MultipartDecoder.next_event(); (3) chunking independence by
 construction (every chunking is compared with the same ground truth).
 """
+import os
 import itertools
 
 from vf import drivers
@@ -95,13 +96,37 @@ class GrammarError(Exception):
     pass
 
 
+_SAVE = {"dir": None, "n": 0}
+
+
+def read_upload(v, how):
+    """the uploaded bytes through one of the file object's read paths: read(), read(n) pieces, save() to disk"""
+    if how == 1:
+        parts = []
+        while True:
+            piece = v.read(3)
+            if not piece:
+                break
+            parts.append(piece)
+        return b"".join(parts)
+    if how == 2 and _SAVE["dir"]:
+        _SAVE["n"] += 1
+        target = os.path.join(_SAVE["dir"], "saved%d" % (_SAVE["n"] % 8))
+        v.save(target)
+        with open(target, "rb") as f:
+            saved = f.read()
+        rest = v.read()  # save() restores the position: the object still reads from the start
+        return saved if saved == rest else b"<save() wrote " + saved[:40] + b" but read() then gave " + rest[:40] + b">"
+    return v.read()
+
+
 def norm(items):
     out = []
-    for n, v in items:
+    for i, (n, v) in enumerate(items):
         if isinstance(v, str):
             out.append((n, None, v.encode("utf-8"), None))
         else:
-            data = v.read()
+            data = read_upload(v, (i + len(items)) % 3)
             out.append((n, v.filename, data, v.headers.get("content-type")))
             v.close()
     return out
@@ -150,10 +175,26 @@ def via_asgi(ctx, chunks, form):
     async def app(scope, receive, send):
         r = asgi.Request(scope, receive, send)
         box["items"] = (await r.form).multi_items()
+        # the async read paths of the uploaded files, then back to the start for the sync ones
+        box["async"] = []
+        for i, (n, v) in enumerate(box["items"]):
+            if not isinstance(v, str):
+                if i % 2 and _SAVE["dir"]:
+                    target = os.path.join(_SAVE["dir"], "asaved")
+                    await v.asave(target)
+                    with open(target, "rb") as f:
+                        box["async"].append(f.read())
+                else:
+                    box["async"].append(await v.aread())
+                    await v.aseek(0)
     res = drivers.run_asgi(app, drivers.to_scope(req), msgs)
     if res.exc is not None:
         raise res.exc
-    return norm(box["items"])
+    out = norm(box["items"])
+    files = [x[2] for x in out if x[1] is not None]
+    if files != box["async"]:
+        raise GrammarError("upload-async-read-differs-from-sync-read")
+    return out
 
 
 PATHS = ("events", "sync", "async", "wsgi-form", "asgi-form")
@@ -354,6 +395,7 @@ def stateful(ctx, rng):
 
 def run(ctx):
     rng = ctx.rng("c01")
+    _SAVE["dir"] = ctx.tmpdir("saved-uploads")
     if ctx.shard == 0:
         for form in REGRESSION_FORMS:
             do_form(ctx, rng, form, PATHS, 0, 200)
